@@ -9,7 +9,7 @@ Separate Extraction
   Gen_MemPool.pvGetBlocksEndPosition Gen_MemPool.pvGetBufferBytesPosition Gen_MemPool.pvGetPrevBufferPosition
   Gen_MemPool.pvGetNextBufferPosition Gen_MemPool.pvGetBeginOffsetPosition Gen_MemPool.pvNewBlock1 Gen_MemPool.pvDeleteBlock1
   Gen_MemPool.pvNewBuffer PoolLayout.new_buffer_layout PoolLayout.block_of PoolLayout.meta_ranges PoolLayout.new_block1_layout
-  PoolLayout.check_params
+  PoolLayout.check_params PoolLayout.alloc1 PoolLayout.dealloc1
   PoolLinks.merge_from PoolLinks.merge_from_prefix PoolLinks.move_to_head PoolLinks.delete_buffer PoolLinks.append_new_buffer
   PoolLinks.heap_of_lists PoolLinks.list_of
   PoolConc.empty_world PoolConc.Allocate PoolConc.Deallocate PoolConc.DeallocateAll PoolConc.DeallocateIf PoolConc.MergeFrom
